@@ -115,6 +115,7 @@ struct CaseSpec {
     int transition = 0;         //!< 0: stop,reset,start in one tick; 1: reset,start (no stop); 2: stop / reset / start in three ticks
     bool has_timeout = false, has_parallel = false;
     int depth = 0;
+    int cap_b = 160;            //!< tick cap of the runs B and B'
 };
 
 std::string describe(const std::vector<Spec> &sp, int n) {
@@ -401,6 +402,7 @@ struct Node {
     int started = 0;
     int last_child_fin_tick = -100;
     bool replay_in_flight = false;  //!< resumed with a child result still to be acted on (the implementation re-posts it)
+    bool stale_run = false;         //!< the current run began while such a stale result could still arrive
     int stale_until = -1;           //!< stopped / reset with such a re-posted result in flight: it must not arrive any more
     // timeouts / sleep
     int64_t active_ms = 0;
@@ -431,6 +433,7 @@ struct Tree {
     int idle_ticks = 0;
     bool in_user_reset = false, in_user_stop = false, in_user_start = false;
     bool blocks_seen = false;
+    bool stale_near_b = false;      //!< phase B began while a re-posted child result of the previous run could still arrive
     int root_done_ticks = -1;       //!< ticks since the root finished / was stopped (-1: not)
 
     // root notifications
@@ -461,12 +464,16 @@ struct Tree {
         ++violations;
         if (g_case_violated) return;
         g_case_violated = true;
-        vh::viol(key, where() + " " + detail + "\n" + tail());
+        size_t lb = key.find(" [");
+        if (lb == std::string::npos) vh::viol(key, where() + " " + detail + "\n" + tail());
+        else vh::viol(key.substr(0, lb), where() + " " + detail + "\n(symptom class " + key.substr(lb + 1) + "; reported under this key because the composite was stopped or "
+                      "reset while a held-back child result was being re-posted by resume(), and the run that shows the symptom began right after)\n" + tail());
     }
     int violations = 0;
     //! a composite that acts on a child result re-posted before it was stopped or reset: one key for all its symptoms
     std::string ckey(int n, const std::string &key) const {
-        return tick <= nd[n].stale_until ? std::string("notify/stale-child-result-replayed-after-stop-or-reset") : key;
+        if (!(tick <= nd[n].stale_until || nd[n].stale_run)) return key;
+        return "notify/stale-child-result-replayed-after-stop-or-reset [" + key + "]";
     }
 
     std::string tail(size_t maxn = 40) const {
@@ -821,6 +828,7 @@ struct Tree {
             if (N.ms != M_IDLE)
                 viol("lifecycle/start-while-not-idle", nname(n) + " started while its lifecycle state is " + kMsName[N.ms]);
             N.ms = M_RUN; N.finals = 0; N.ended_by_timeout = false; N.paused_by_pause = false;
+            N.stale_run = tick <= N.stale_until;
             N.active_ms = 0; N.t_arm = (int64_t)g_now_ms; N.cont_running = true;
             N.stopped_by_running_parent = 0;
             cnt(kRunCounter[s.kind]);
@@ -971,7 +979,7 @@ struct Tree {
             break;
         case E_RESET:
             if ((N.ms == M_RUN || N.ms == M_PAUSE) && !in_user_reset)
-                viol(ckey(p, "order/parent-advanced-while-child-under-way"), nname(n) + " was reset by its parent while its run was under way (" + kMsName[N.ms] + ")");
+                viol(ckey(p < 0 ? n : p, "order/parent-advanced-while-child-under-way"), nname(n) + " was reset by its parent while its run was under way (" + kMsName[N.ms] + ")");
             if ((N.ms == M_RUN || N.ms == M_PAUSE) && in_user_reset) cnt("reset_while_underway");
             if (N.replay_in_flight) { N.replay_in_flight = false; N.stale_until = tick + 2; cnt("reset_with_replayed_child_result_in_flight"); }
             N.ms = M_IDLE; N.expect = X_NONE; N.cont_running = false; N.finals = 0;
@@ -1133,7 +1141,7 @@ struct Tree {
                 if (ps == Action::State::kIdle || ps == Action::State::kFinished || ps == Action::State::kStoped) {
                     const char *how = ps == Action::State::kIdle ? "reset" : ps == Action::State::kStoped ? "stop"
                                       : nd[pn].ended_by_timeout ? "timeout" : "finish";
-                    viol(std::string("cleanup/descendant-left-underway-after-") + how,
+                    viol(ckey(pn, std::string("cleanup/descendant-left-underway-after-") + how),
                          vh::fmt("after %s: %s (%s) is %s but its child %s is still %s", when, nname(pn).c_str(), kKindName[sp[pn].kind],
                                  ToString(ps).c_str(), nname(n).c_str(), ToString(st).c_str()));
                 }
@@ -1161,7 +1169,7 @@ struct Tree {
                 const Action::State bad = rs == Action::State::kPause ? Action::State::kRunning : Action::State::kPause;
                 for (size_t i = 1; i < nd.size(); ++i)
                     if (nd[i].act->state() == bad) {
-                        viol(rs == Action::State::kPause ? "pause/descendant-running-under-paused-root" : "pause/descendant-paused-under-running-root",
+                        viol(ckey(sp[i].parent, rs == Action::State::kPause ? "pause/descendant-running-under-paused-root" : "pause/descendant-paused-under-running-root"),
                              vh::fmt("after %s: root is %s but %s is %s (no leaf has blocked)", when, ToString(rs).c_str(),
                                      nname((int)i).c_str(), ToString(bad).c_str()));
                         break;
@@ -1179,8 +1187,8 @@ struct Tree {
                 if (N.pend) return true;
                 if (sp[i].kind == L_SLEEP) return true;
                 if (sp[i].timeout) return true;
-            } else if (st == Action::State::kPause && sp[i].timeout && !N.paused_by_pause) {
-                return true;    // blocked, its timeout timer keeps running
+            } else if (st == Action::State::kPause && sp[i].timeout && !N.paused_by_pause && N.active_ms <= sp[i].timeout + 20) {
+                return true;    // blocked with its timeout timer possibly still armed
             }
         }
         return false;
@@ -1347,6 +1355,7 @@ struct Driver {
 
     Driver(event::Loop &l, Tree &tr, bool with_a) : loop(l), t(tr), cs(tr.cs), ph(with_a ? PH_A : PH_T2) {
         idle_limit = cs.depth * 4 + 10;
+        cap_b = cs.cap_b;
         t.phase = with_a ? "A" : "F";
         t.resume_delay = with_a ? cs.s1.resume_delay : cs.s2.resume_delay;
     }
@@ -1364,6 +1373,7 @@ struct Driver {
     }
 
     void begin_b() {
+        for (Node &N : t.nd) if (N.stale_until >= t.tick) { t.stale_near_b = true; N.stale_until = 2; }
         t.phase = ph == PH_A || ph == PH_T1 || (ph == PH_T2 && t.phase[0] != 'F') ? "B" : "F";
         t.tick = 0;
         t.record = true;
@@ -1713,7 +1723,7 @@ void run_case(const CaseSpec &cs, bool may_sample) {
             for (size_t j = i; j < std::min(a.size(), i + 6); ++j) d += "   reset: " + ev_str(*t1, a[j]) + "\n";
             for (size_t j = i; j < std::min(b.size(), i + 6); ++j) d += "   fresh: " + ev_str(*t2, b[j]) + "\n";
             g_case_violated = true;
-            vh::viol("reset/run-after-reset-differs-from-fresh-tree", d + t1->tail(60));
+            vh::viol(t1->stale_near_b ? "notify/stale-child-result-replayed-after-stop-or-reset" : "reset/run-after-reset-differs-from-fresh-tree", d + t1->tail(60));
         } else {
             cnt("reset_vs_fresh_traces_compared");
             cnt("reset_vs_fresh_trace_entries", a.size());
@@ -1729,7 +1739,7 @@ void run_case(const CaseSpec &cs, bool may_sample) {
     if (d1.root_finished) cnt("rerun_after_reset_root_finished");
     vh::Sig sg;
     sg.add(vh::st().case_desc);
-    bool nontrivial = cs.depth >= 2 && t1->effective_ops >= 3;
+    bool nontrivial = (cs.depth >= 2 || vh::st().args.mode == "exhaustive") && t1->effective_ops >= 3;
     vh::note_case(sg.h, nontrivial);
     if (may_sample && nontrivial && vh::want_sample() && d2.root_finished && cs.sp.size() <= 14) {
         std::string lg;
@@ -1747,18 +1757,163 @@ void run_case(const CaseSpec &cs, bool may_sample) {
     }
 }
 
+//////////////////////////////////////////////////////////////////////////////////////////////////////////////////////
+// exhaustive sub-space: every single composite (all modes) over probe leaves from a small behaviour alphabet,
+// crossed with every placement of one pause/resume pair, one stop, one reset+start or one pause followed by
+// resume+stop+reset+start in the first four ticks
+//////////////////////////////////////////////////////////////////////////////////////////////////////////////////////
+
+struct XConfig { int kind, mode, times, variant, slots; };
+
+std::vector<XConfig> xconfigs() {
+    std::vector<XConfig> v;
+    for (int k = K_SEQ; k <= K_PAR; ++k)
+        for (int m = 0; m < 3; ++m) { v.push_back(XConfig{k, m, 0, 0, 2}); v.push_back(XConfig{k, m, 0, 1, 3}); }
+    v.push_back(XConfig{K_IFELSE, 0, 0, 0, 3});     // if, then, else
+    v.push_back(XConfig{K_IFELSE, 0, 0, 1, 2});     // if, then
+    v.push_back(XConfig{K_IFELSE, 0, 0, 2, 2});     // if, else
+    v.push_back(XConfig{K_IFTHEN, 0, 0, 0, 2});
+    v.push_back(XConfig{K_IFTHEN, 0, 0, 1, 4});
+    v.push_back(XConfig{K_SWITCH, 0, 0, 0, 3});     // switch, case:a, default
+    v.push_back(XConfig{K_SWITCH, 0, 0, 1, 2});     // switch, case:a
+    for (int m = 0; m < 3; ++m) v.push_back(XConfig{K_LOOP, m, 0, 0, 2});      // one leaf, two-step script
+    for (int m = 0; m < 2; ++m) v.push_back(XConfig{K_LOOPIF, m, 0, 0, 2});
+    for (int t = 0; t < 3; ++t)
+        for (int m = 0; m < 3; ++m) v.push_back(XConfig{K_REPEAT, m, t, 0, 2});    // one leaf, two-step script
+    for (int m = 0; m < 4; ++m) v.push_back(XConfig{K_WRAPPER, m, 0, 0, 1});
+    v.push_back(XConfig{K_COMPOSITE, 0, 0, 0, 1});
+    return v;
+}
+
+const int kXNCtrl = 25;
+const int kXCtrl = kXNCtrl * 2;      //!< control variants x re-post policy
+
+uint64_t ipow(uint64_t b, int e) { uint64_t r = 1; while (e-- > 0) r *= b; return r; }
+
+uint64_t xspace(int alpha) {
+    uint64_t n = 0;
+    for (const XConfig &c : xconfigs()) n += ipow((uint64_t)alpha, c.slots) * kXCtrl;
+    return n;
+}
+
+LeafStep xstep(int d, bool switch_slot) {
+    LeafStep st;
+    switch (d) {
+        case 0: st.outcome = O_SUCC; break;
+        case 1: st.outcome = O_FAIL; break;
+        case 2: st.outcome = O_SUCC; st.delay = 1; break;
+        case 3: st.outcome = O_FAIL; st.delay = 1; break;
+        case 4: st.outcome = O_SUCC; st.block = 1; break;
+        default: st.outcome = O_FAIL; st.block = 1; st.delay = 1; st.delay2 = 1; break;
+    }
+    st.msg = switch_slot ? ((d & 1) ? 3 : 0) : 4;       // switch leaf: "case:a" / "case:zz"
+    if (switch_slot && d == 1) { st.outcome = O_SUCC; }  // d=1: succeeds with an unknown case (takes the default / skips)
+    if (switch_slot && d == 3) { st.outcome = O_FAIL; st.msg = 0; }
+    return st;
+}
+
+void xcase(uint64_t idx, int alpha, CaseSpec &cs) {
+    static const std::vector<XConfig> cfgs = xconfigs();
+    idx %= xspace(alpha);
+    size_t ci = 0;
+    for (;; ++ci) {
+        uint64_t n = ipow((uint64_t)alpha, cfgs[ci].slots) * kXCtrl;
+        if (idx < n) break;
+        idx -= n;
+    }
+    const XConfig &c = cfgs[ci];
+    const int ctrl = (int)(idx % kXNCtrl); idx /= kXNCtrl;
+    const int pf = (int)(idx % 2); idx /= 2;
+    std::vector<int> dig(c.slots);
+    for (int i = 0; i < c.slots; ++i) { dig[i] = (int)(idx % (uint64_t)alpha); idx /= (uint64_t)alpha; }
+
+    Spec root;
+    root.kind = c.kind; root.mode = c.mode; root.times = c.times;
+    if (c.kind == K_LOOPIF) { root.lif_result = c.mode == 0; root.mode = 0; }
+    cs.sp.push_back(root);
+    auto add_leaf = [&](int role, std::vector<int> steps, bool sw) {
+        Spec l;
+        l.kind = L_PROBE; l.parent = 0; l.role = role; l.depth = 1;
+        for (int d : steps) l.script.push_back(xstep(d, sw));
+        cs.sp.push_back(l);
+        return (int)cs.sp.size() - 1;
+    };
+    Spec &r = cs.sp[0];
+    std::vector<int> kids;
+    switch (c.kind) {
+        case K_SEQ: case K_PAR: case K_IFTHEN: case K_LOOPIF:
+            for (int i = 0; i < c.slots; ++i) kids.push_back(add_leaf(i, {dig[i]}, false));
+            break;
+        case K_IFELSE:
+            kids.push_back(add_leaf(0, {dig[0]}, false));
+            if (c.variant == 0) { kids.push_back(add_leaf(1, {dig[1]}, false)); kids.push_back(add_leaf(2, {dig[2]}, false)); }
+            else if (c.variant == 1) { kids.push_back(add_leaf(1, {dig[1]}, false)); kids.push_back(-1); }
+            else { kids.push_back(-1); kids.push_back(add_leaf(2, {dig[1]}, false)); }
+            break;
+        case K_SWITCH:
+            kids.push_back(add_leaf(0, {dig[0]}, true));
+            kids.push_back(add_leaf(1, {dig[1]}, false));
+            cs.sp[0].case_msg.push_back(0);
+            if (c.variant == 0) { kids.push_back(add_leaf(2, {dig[2]}, false)); cs.sp[0].has_default = true; }
+            break;
+        case K_LOOP: case K_REPEAT:
+            kids.push_back(add_leaf(0, {dig[0], dig[1]}, false));
+            break;
+        default:
+            kids.push_back(add_leaf(0, {dig[0]}, false));
+            break;
+    }
+    (void)r;
+    cs.sp[0].kids = kids;
+    cs.depth = 1;
+    cs.has_parallel = c.kind == K_PAR;
+
+    for (Script *sc : {&cs.s1, &cs.s2}) {
+        for (int i = 0; i < 64; ++i) { sc->dt[i] = 1; sc->post_first[i] = (unsigned char)pf; }
+        sc->resume_delay = 1;
+    }
+    cs.s1.len = 10;
+    cs.s2.len = -1;
+    cs.s1.ops.push_back(Op{0, OP_START});
+    if (ctrl >= 1 && ctrl <= 12) {
+        int p = (ctrl - 1) / 3, g = (ctrl - 1) % 3;
+        cs.s1.ops.push_back(Op{p, OP_PAUSE}); cs.s1.ops.push_back(Op{p + g, OP_RESUME});
+        cs.s2.ops.push_back(Op{p, OP_PAUSE}); cs.s2.ops.push_back(Op{p + g, OP_RESUME});
+    } else if (ctrl >= 13 && ctrl <= 16) {
+        cs.s1.ops.push_back(Op{ctrl - 13, OP_STOP});
+    } else if (ctrl >= 17 && ctrl <= 20) {
+        int p = ctrl - 17;
+        cs.s1.ops.push_back(Op{p, OP_RESET}); cs.s1.ops.push_back(Op{p, OP_START});
+    } else if (ctrl >= 21) {        // pause, and one tick later resume + stop + reset + start in one tick
+        int p = ctrl - 21;
+        cs.s1.ops.push_back(Op{p, OP_PAUSE});
+        for (int op : {OP_RESUME, OP_STOP, OP_RESET, OP_START}) cs.s1.ops.push_back(Op{p + 1, op});
+    }
+    cs.transition = 0;
+    cs.cap_b = 40;
+}
+
 }  // namespace
 
 int main(int argc, char **argv) {
     tbox::event::verif::SetSteadyClockMs(clock_fn);
     g_loop = event::Loop::New();
     if (!g_loop) { fprintf(stderr, "Loop::New failed\n"); return 3; }
-    int rc = vh::run(argc, argv, [&](uint64_t, vh::Rng &rng) {
+    vh::parse_args(argc, argv);
+    const std::string mode = vh::st().args.mode;
+    const int alpha = (int)vh::st().args.num("alpha", 5);
+    if (mode == "xcount") { printf("%llu\n", (unsigned long long)xspace(alpha)); return 0; }
+    int rc = vh::run(argc, argv, [&](uint64_t idx, vh::Rng &rng) {
         g_now_ms = 1000000 + rng.below(1000000000ULL);
         CaseSpec cs;
-        Gen g{rng, cs, 0, false, false, 4};
-        g.run();
-        run_case(cs, true);
+        if (mode == "exhaustive") {
+            xcase(idx, alpha, cs);
+            run_case(cs, (idx % 9973) == 0);
+        } else {
+            Gen g{rng, cs, 0, false, false, 4};
+            g.run();
+            run_case(cs, true);
+        }
     });
     delete g_loop;
     return rc;
